@@ -402,28 +402,70 @@ func ruleDemuxRunEscapable(c *Ctx, rule string) {
 func ruleChannelReadFailsAfterClose(c *Ctx, rule string, f *ssa.Function, name string) {
 	p := c.p
 	n := 0
+	closable := func(ch ssa.Value) bool {
+		cls := p.chanClass(ch)
+		for _, u := range p.chanUses() {
+			if u.kind == "close" && classesIntersect(cls, p.chanClass(u.ch)) {
+				return true
+			}
+		}
+		return false
+	}
+	isSignal := func(ch ssa.Value) bool {
+		ct, ok := ch.Type().Underlying().(*types.Chan)
+		if !ok {
+			return false
+		}
+		st, ok := ct.Elem().Underlying().(*types.Struct)
+		return ok && st.NumFields() == 0
+	}
 	allInstrs(f, func(i ssa.Instruction) {
 		var okV ssa.Value
 		switch x := i.(type) {
 		case *ssa.Select:
-			for _, st := range x.States {
-				if st.Dir == types.RecvOnly && p.chanDesc(st.Chan) != "Done()" {
-					n++
-					if e := extractOf(x, 1); e != nil {
-						okV = e
-					} else {
-						c.check(rule, name+":comma-ok", false, "receive does not test for closure", p.ipos(i))
+			for si, st := range x.States {
+				if st.Dir != types.RecvOnly || p.chanDesc(st.Chan) == "Done()" {
+					continue
+				}
+				n++
+				desc := p.chanDesc(st.Chan)
+				if !closable(st.Chan) {
+					c.trivial(rule, name+":"+desc+":never-closed", true, "this channel is never closed in scope: a receive cannot observe closure", p.ipos(i))
+					continue
+				}
+				if isSignal(st.Chan) {
+					// a closed signal channel: the branch it selects must fail the read
+					idx := extractOf(x, 0)
+					found := false
+					for _, r := range returnsOf(f) {
+						if idx != nil && p.Facts(r).Eq("const:"+itoa(si), p.lpath(idx)) {
+							found = true
+							v := retVals(r)
+							ok2, why := p.provablyNonNilErr(v[len(v)-1], r)
+							c.check(rule, name+":"+desc+":closed⇒error", ok2, "when the closure signal fires the read returns "+why, p.ipos(r))
+						}
 					}
+					c.check(rule, name+":"+desc+":signal-branch-returns", found, "the branch selected by the closure signal returns", p.ipos(i))
+					continue
+				}
+				if e := extractOf(x, 1); e != nil {
+					okV = e
+				} else {
+					c.check(rule, name+":comma-ok", false, "receive from a channel that may be closed does not test for closure", p.ipos(i))
 				}
 			}
 		case *ssa.UnOp:
 			if x.Op == token.ARROW {
 				n++
+				if !closable(x.X) {
+					c.trivial(rule, name+":"+p.chanDesc(x.X)+":never-closed", true, "this channel is never closed in scope", p.ipos(i))
+					return
+				}
 				if x.CommaOk {
 					okV = extractOf(x, 1)
 				}
 				if okV == nil {
-					c.check(rule, name+":comma-ok", false, "receive does not test for closure", p.ipos(i))
+					c.check(rule, name+":comma-ok", false, "receive from a channel that may be closed does not test for closure", p.ipos(i))
 				}
 			}
 		}
